@@ -6,8 +6,17 @@ Import ListNotations.
 Open Scope string_scope.
 Open Scope list_scope.
 
-(* ---- the four sources of the framework intersection ---- *)
-Definition api_allows (rq : request) (x : fw) : Prop := api rq = [] \/ In x (api rq).      (* API argument *)
+(* ---- the four sources of the framework intersection.  Frameworks are class OBJECTS (identities); only a string entry
+        of the API list speaks about names ---- *)
+(* what ONE entry of the API list admits, BY THE ENTRY'S KIND: a string admits every class of that name, a class object
+   admits that class and nothing else (not a same-named twin) *)
+Definition entry_allows (e : env) (a : apient) (x : fw) : Prop :=
+  match a with
+  | AName n => cname e x = n
+  | AClass y => x = y
+  end.
+Definition api_allows (e : env) (rq : request) (x : fw) : Prop :=                           (* API argument *)
+  api rq = [] \/ exists a, In a (api rq) /\ entry_allows e a x.
 Definition rule_allows (c : fgclass) (x : fw) : Prop :=                                     (* feature group rule *)
   match rule c with None => True | Some s => In x s end.
 Definition feature_allows (rq : request) (x : fw) : Prop :=                                 (* feature setting *)
@@ -16,7 +25,7 @@ Definition is_available (e : env) (x : fw) : Prop := In x (existing e) /\ In x (
 
 (* frameworks on which group c may run for this request (feature setting not yet applied) *)
 Definition group_fw (e : env) (rq : request) (c : fgclass) (x : fw) : Prop :=
-  api_allows rq x /\ rule_allows c x /\ is_available e x.
+  api_allows e rq x /\ rule_allows c x /\ is_available e x.
 (* frameworks on which the feature may run when computed by c: all four sources *)
 Definition admissible_fw (e : env) (rq : request) (c : fgclass) (x : fw) : Prop :=
   group_fw e rq c x /\ feature_allows rq x.
@@ -63,8 +72,8 @@ Definition kf_fw_mismatch (e : env) (u : list fgclass) (rq : request) : Prop :=
 Definition request_error (e : env) (u : list fgclass) (rq : request) (er : err) : Prop :=
   match er with
   | EFwUnknown => exists x, ffw rq = Some x /\ ~ In x (existing e)
-  | ENoApiFramework => api rq <> [] /\ forall x, In x (api rq) -> ~ In x (existing e)
-  | EFeatureFwNotInApi => exists x, ffw rq = Some x /\ In x (existing e) /\ api rq <> [] /\ ~ In x (api rq)
+  | ENoApiFramework => api rq <> [] /\ forall a x, In a (api rq) -> In x (existing e) -> ~ entry_allows e a x
+  | EFeatureFwNotInApi => exists x, ffw rq = Some x /\ In x (existing e) /\ ~ api_allows e rq x
   | ENoAccessible => forall c, In c u -> ~ collector_allows rq c
   | _ => False
   end.
@@ -87,6 +96,15 @@ Definition kf_fw_mismatch_b (e : env) (u : list fgclass) (rq : request) : bool :
   let ident := identified e rq u in
   existsb (fun o => existsb (fun i => negb (set_eqb (snd i) (snd o)) && (negb (Nat.eqb (cid (fst i)) (cid (fst o)))
                                        && issub (fst i) (fst o))) ident) ident.
+
+(* ---- a feature-level framework given by NAME (Feature(compute_framework="N")): the part of the input space in which the
+        name does not determine the class - at least two existing classes carry it (decidable by definition) ---- *)
+Definition named (e : env) (n : fwname) : list fw := filter (fun s => Nat.eqb (cname e s) n) (existing e).
+Definition kf_ffw_name_twins (e : env) (fn : option fwname) : bool :=
+  match fn with
+  | Some n => match named e n with _ :: _ :: _ => true | _ => false end
+  | None => false
+  end.
 
 (* ---- plugin_docs.resolve_feature: name match only, unconditional subclass preference ---- *)
 Definition doc_pref (u : list fgclass) (name : string) (c : fgclass) : Prop :=
